@@ -15,10 +15,7 @@ import (
 	"strconv"
 	"strings"
 
-	"github.com/spf13/viper"
-
 	"github.com/atlassian/gostatsd"
-	"github.com/atlassian/gostatsd/pkg/backends/influxdb"
 )
 
 type influxCfg struct {
@@ -290,7 +287,7 @@ func runInflux(e *env, cs *caseRef, w *workload, rng *rand.Rand) {
 		c.Creds = "user:secret"
 	}
 	cs.Config = c
-	v := viper.New()
+	v := newCfg()
 	v.Set("influxdb.api-endpoint", e.sink.url())
 	if c.Version != 0 {
 		v.Set("influxdb.api-version", c.Version)
@@ -314,7 +311,7 @@ func runInflux(e *env, cs *caseRef, w *workload, rng *rand.Rand) {
 		v.Set("influxdb.credentials", c.Creds)
 	}
 	setDisabled(v, w.Disabled)
-	be, err := influxdb.NewClientFromViper(v, e.logger, e.pool)
+	be, err := e.initBackend(cs, "influxdb", v, rng)
 	if err != nil {
 		e.r.Inconclusive("influxdb:factory-error")
 		return
